@@ -51,6 +51,12 @@ inductive S
   | block (b : S) (k : S)
   | ifb (c : B) (t e : S) (k : S)
   | loop (c : B) (body cont : S) (k : S)
+  /-- `!is_defeat();` -/
+  | defeat (k : S)
+  /-- `!truth_is_defeat(c);` for a condition of the directly lowered shape (`isD`) -/
+  | defeatIf (c : B) (k : S)
+  /-- `try { body } undo { handler }` -/
+  | tryUndo (body handler : S) (k : S)
   deriving Repr, Inhabited
 
 /-! ## compile-time context -/
@@ -217,6 +223,38 @@ def cB (cx : Cx) (Γ : Gam) : (pc o : Nat) → B → (ifT ifF : List Instr) → 
     let oend := lif + nR
     cB cx Γ pc o l (if tG then ifT else ifT ++ goto oend) (goto lif) ++ cB cx Γ lif o r ifT ifF
 
+/-! ## `!truth_is_defeat(c)`: conditions lowered directly to conditional halts -/
+def isD : B → Bool
+  | .lit _ => true
+  | .cmp _ _ _ => true
+  | .or l r => isD l && isD r
+  | _ => false
+
+def lenD (ck : Bool) : B → Nat
+  | .lit true => 1
+  | .lit false => 0
+  | .cmp _ l r =>
+    lenE l ck (!isSafe r) + (lenE r ck false + (match r with | .var _ => 1 | _ => 0))
+      + (match l with | .var _ => 1 | .lit _ => 0 | _ => if isSafe r then 0 else 1) + 1
+  | .or l r => lenD ck l + lenD ck r
+  | _ => 0
+
+/-- `truth_is_defeat(c)` in a context whose effective defeat is `halt` -/
+def cD (cx : Cx) (Γ : Gam) : (pc o : Nat) → B → List Instr
+  | _, _, .lit true => [.halt]
+  | _, _, .lit false => []
+  | pc, o, .cmp op l r =>
+    let (c1, vl, p1) := cE cx Γ pc o cx.r0 l (!isSafe r)
+    let o1 := if p1 then o + cx.w else o
+    let (c2, vr0, _) := cE cx Γ (pc + c1.length) o1 cx.r1 r false
+    let (c2', vr) := getOp cx cx.r1 vr0
+    let (c3, vl') := getOp cx cx.r0 vl
+    c1 ++ c2 ++ c2' ++ c3 ++ [.hcond (cmpHalt op) (vl'.arg cx) (vr.arg cx)]
+  | pc, o, .or l r =>
+    let c := cD cx Γ pc o l
+    c ++ cD cx Γ (pc + c.length) o r
+  | _, _, _ => []
+
 /-! ## statements -/
 def lenPush (ck : Bool) (e : E) : Nat :=
   match e with
@@ -240,6 +278,9 @@ def lenS (ck : Bool) : S → Nat
   | .block b k => lenS ck b + lenS ck k
   | .ifb c t e k => lenB ck c 0 2 false true + lenS ck t + 2 + lenS ck e + lenS ck k
   | .loop c body cont k => lenB ck c 0 2 false true + lenS ck body + lenS ck cont + 2 + lenS ck k
+  | .defeat k => 1 + lenS ck k
+  | .defeatIf c k => lenD ck c + lenS ck k
+  | .tryUndo body handler k => 1 + lenS ck body + 2 + lenS ck handler + lenS ck k
 
 /-- the call `write(e)` for an `int` argument (`eval_func_call`, general path, callee `write_int`) -/
 def cWrite (cx : Cx) (Γ : Gam) (pc o : Nat) (e : E) : List Instr :=
@@ -282,6 +323,14 @@ def cS (cx : Cx) : (Γ : Gam) → (pc o : Nat) → S → List Instr
     let brkA := contA + lenS cx.checked cont + 2
     cB cx Γ pc o c [] (goto brkA) ++ cS cx Γ (pc + nC) o body ++ cS cx Γ contA o cont ++ goto pc
       ++ cS cx Γ brkA o k
+  | Γ, pc, o, .defeat k => .halt :: cS cx Γ (pc + 1) o k
+  | Γ, pc, o, .defeatIf c k =>
+    let d := cD cx Γ pc o c
+    d ++ cS cx Γ (pc + d.length) o k
+  | Γ, pc, o, .tryUndo body handler k =>
+    let hA := pc + 1 + lenS cx.checked body + 2
+    let endA := hA + lenS cx.checked handler
+    [.j (.imm hA)] ++ cS cx Γ (pc + 1) o body ++ goto endA ++ cS cx Γ hA o handler ++ cS cx Γ endA o k
 
 /-! ## the stack-check constant (`Tracker`): the peak of `stack.static_size` over the function -/
 def pkE (w : Nat) : (o : Nat) → E → Bool → Nat
@@ -321,6 +370,9 @@ def pkS (w : Nat) : (o : Nat) → S → Nat
   | o, .block b k => max (pkS w o b) (pkS w o k)
   | o, .ifb c t e k => max (max (pkB w o c) (pkS w o t)) (max (pkS w o e) (pkS w o k))
   | o, .loop c body cont k => max (max (pkB w o c) (pkS w o body)) (max (pkS w o cont) (pkS w o k))
+  | o, .defeat k => pkS w o k
+  | o, .defeatIf c k => max (pkB w o c) (pkS w o k)
+  | o, .tryUndo body handler k => max (max (pkS w o body) (pkS w o handler)) (pkS w o k)
 
 /-! ## the whole program -/
 structure Config where
@@ -382,7 +434,7 @@ def evalB (M n : Nat) (env : Env) : B → Option Bool
     let a ← evalB M n env l
     if a then pure true else evalB M n env r
 
-inductive Res | norm | returned | div0
+inductive Res | norm | returned | div0 | defeat
   deriving DecidableEq, Repr, Inhabited
 
 def upd (env : Env) (x : String) (v : Nat) : Env := fun y => if y = x then v else env y
@@ -446,12 +498,32 @@ def exec (M n : Nat) : (fuel : Nat) → Env → S → Option (Env × List Ev × 
           pure (env3, tr1 ++ tr2 ++ tr3, r3)
         else pure (env2, tr1 ++ tr2, r2)
       else pure (env1, tr1, r1)
+  | _ + 1, env, .defeat _ => some (env, [], .defeat)
+  | f + 1, env, .defeatIf c k =>
+    match evalB M n env c with
+    | none => some (env, [], .div0)
+    | some true => some (env, [], .defeat)
+    | some false => exec M n f env k
+  | f + 1, env, .tryUndo body handler k => do
+    let (env1, tr1, r1) ← exec M n f env body
+    if r1 = .defeat then
+      -- the try body is never run: the handler starts from the state before the try
+      let (env2, tr2, r2) ← exec M n f env handler
+      if r2 = .norm then
+        let (env3, tr3, r3) ← exec M n f env2 k
+        pure (env3, tr2 ++ tr3, r3)
+      else pure (env2, tr2, r2)
+    else if r1 = .norm then
+      let (env3, tr3, r3) ← exec M n f env1 k
+      pure (env3, tr1 ++ tr3, r3)
+    else pure (env1, tr1, r1)
 
 /-- observable behaviour of a core program: output events followed by the terminal flags -/
 def runCore (w fuel : Nat) (body : S) : Option (List Ev) :=
   match exec (256 ^ w) (8 * w) fuel (fun _ => 0) body with
   | none => none
   | some (_, tr, .div0) => some (tr ++ [Ev.flag "division_by_zero", Ev.flag "error"])
+  | some (_, tr, .defeat) => some tr
   | some (_, tr, _) => some (tr ++ [Ev.flag "win"])
 
 /-! ## recognising core programs in the typed tree dumped by the real front end -/
@@ -505,6 +577,11 @@ partial def toS : List Hid.Stmt → Option S
   | .block ss :: k => do pure (.block (← toS ss) (← toS k))
   | .ifb c (.block t) (.block e) :: k => do pure (.ifb (← toB c) (← toS t) (← toS e) (← toS k))
   | .loop c (.block body) (.block cont) :: k => do pure (.loop (← toB c) (← toS body) (← toS cont) (← toS k))
+  | .expr (.call "!is_defeat" [] []) :: k => do pure (.defeat (← toS k))
+  | .expr (.call "!truth_is_defeat" [.bool] [c]) :: k => do
+    let c ← toB c
+    if isD c then pure (.defeatIf c (← toS k)) else none
+  | .tryb (.block body) .undo (.block handler) :: k => do pure (.tryUndo (← toS body) (← toS handler) (← toS k))
   | _ => none
 
 def fromAst (p : Hid.Program) : Option S :=
@@ -546,5 +623,42 @@ def wfS : List String → S → Bool
   | Γ, .block b k => wfS Γ b && wfS Γ k
   | Γ, .ifb c t e k => boundB Γ c && wfS Γ t && wfS Γ e && wfS Γ k
   | Γ, .loop c body cont k => boundB Γ c && wfS Γ body && wfS Γ cont && wfS Γ k
+  | Γ, .defeat k => wfS Γ k
+  | Γ, .defeatIf c k => boundB Γ c && isD c && wfS Γ k
+  | Γ, .tryUndo body handler k => wfS Γ body && wfS Γ handler && wfS Γ k
+
+/-- no `try` inside (the body of a `try` is a defeat context, where `try` is not allowed) -/
+def noTry : S → Bool
+  | .nil => true | .ret => true
+  | .decl _ _ k => noTry k | .assign _ _ k => noTry k | .write _ k => noTry k | .writeln _ k => noTry k
+  | .putc _ k => noTry k
+  | .block b k => noTry b && noTry k
+  | .ifb _ t e k => noTry t && noTry e && noTry k
+  | .loop _ body cont k => noTry body && noTry cont && noTry k
+  | .defeat k => noTry k | .defeatIf _ k => noTry k
+  | .tryUndo _ _ _ => false
+
+/-- neither `try` nor defeat calls -/
+def plain : S → Bool
+  | .nil => true | .ret => true
+  | .decl _ _ k => plain k | .assign _ _ k => plain k | .write _ k => plain k | .writeln _ k => plain k
+  | .putc _ k => plain k
+  | .block b k => plain b && plain k
+  | .ifb _ t e k => plain t && plain e && plain k
+  | .loop _ body cont k => plain body && plain cont && plain k
+  | .defeat _ => false | .defeatIf _ _ => false
+  | .tryUndo _ _ _ => false
+
+/-- the flavour rules on core programs (guaranteed by the parser, C06): at the level of the you
+function defeat calls occur only inside `try` bodies, `try` is not nested, handlers are plain -/
+def youLevel : S → Bool
+  | .nil => true | .ret => true
+  | .decl _ _ k => youLevel k | .assign _ _ k => youLevel k | .write _ k => youLevel k | .writeln _ k => youLevel k
+  | .putc _ k => youLevel k
+  | .block b k => youLevel b && youLevel k
+  | .ifb _ t e k => youLevel t && youLevel e && youLevel k
+  | .loop _ body cont k => youLevel body && youLevel cont && youLevel k
+  | .defeat _ => false | .defeatIf _ _ => false
+  | .tryUndo body handler k => noTry body && plain handler && youLevel k
 
 end HidVerif.Core
